@@ -40,7 +40,7 @@ func FuzzC13(f *testing.F) {
 func TestC14(t *testing.T) {
 	evid.Run(t, evid.Prop[DivCase]{
 		ID:   "C14",
-		Rule: "rapid-generated (divider, 1..8 distinct priorities sorted high to low incl. magnitudes up to 2^21, dividend 0..2^32 with dividend*priority < 2^53, pre-filled distribution with listed and foreign keys, v1 called with nil or non-nil map); oracle: conservation, untouched foreign keys, order and tolerance in math/big, v1 == v2; non-trivial = n >= 2 and (Fair) dividend mod n != 0 or (Rate) a rounding, truncation or left-over branch is taken; distinct = distinct case JSON",
+		Rule: "rapid-generated (divider, 1..8 distinct priorities sorted high to low incl. the value 0 (so also the list [0]) and magnitudes up to 2^44 (sums beyond 2^32), dividend 0..2^32 with dividend*priority < 2^53, pre-filled distribution with listed and foreign keys, v1 called with nil or non-nil map); oracle: conservation, untouched foreign keys, order and tolerance in math/big, v1 == v2; non-trivial = n >= 2 and (Fair) dividend mod n != 0 or (Rate) a rounding, truncation or left-over branch is taken; distinct = distinct case JSON",
 		Gen:  GenDiv,
 		Run: func(c DivCase) evid.Outcome {
 			nt, cl := DivShape(c)
